@@ -59,7 +59,7 @@ def decide(pid, tier, units, scratch, run_unit):
                 viol.append((u, r, o))
         bounded = bool(u.get('bounded'))
         cnt = len(mine) - len(kfail)
-        ok = len(mine) - len(fails)
+        ok = sum(1 for o in mine if o['status'] == 'SUCCESS')
         if bounded:
             n_bounded += cnt
             n_bounded_ok += ok
